@@ -17,7 +17,8 @@ FILES = ["anytree/exporter/dotexporter.py", "anytree/dotexport.py", "anytree/ite
 ASSUMPTIONS = ["str() of names and of custom function results is computed by Python and shipped as text",
                "id() of live node objects is unique (UniqueDotExporter / MermaidExporter number nodes by id())"]
 TRUSTED = ["to_dotfile / to_file output is compared with the iterated lines by the harness (file I/O is CPython's)"]
-NAMEPOOL = ["a", "b", "a", 'q"x', "back\\slash", "sp ace", "ä中", '\\"', "", "x\\", 'a"b\\c"', "n\nl"]
+NAMEPOOL = ["a", "b", "a", 'q"x', "back\\slash", "sp ace", "ä中", '\\"', "", "x\\", 'a"b\\c"', "n\nl",
+            " a", "a ", " ", "\ta", "a\n"]
 COQKIND = {"dot": "KDot", "legacy": "KDot", "unique": "KUnique", "mermaid": "KMermaid", "mermaid_default": "KMermaidDefault"}
 
 
